@@ -66,14 +66,15 @@ c.raises("BaseException", when="reraise_case(self, method, error)", ensures="exc
 c.raises("MaxRetryError", when="not reraise_case(self, method, error) and exhausted_after(self, error, response)", iff=True,
          ensures="implies(error is not None, exc.reason is error) and implies(error is None, isinstance(exc.reason, ResponseError))",
          name="exhausted")
+c.result_hint = R
 c.ensures("fresh(result) and isinstance(result, Retry)", "fresh-copy")
+c.ensures("valid_retry(result)", "invariant-kept")
 c.ensures("result.total == new_total(self) and result.connect == new_connect(self, error) and result.read == new_read(self, error)"
           " and result.other == new_other(self, error)", "error-counters")
 c.ensures("result.redirect == new_redirect(self, error, response) and result.status == new_status(self, error, response)", "response-counters")
 c.ensures("same_policy(result, self)", "policy-carried")
 c.ensures("len(result.history) == len(self.history) + 1", "history-extended")
 c.ensures("not any_negative(result)", "not-exhausted")
-c.ensures("valid_retry(result)", "invariant-kept")
 
 field(R, "DEFAULT", R)
 field("urllib3.response.BaseHTTPResponse", "headers", "urllib3._collections.HTTPHeaderDict")
@@ -95,8 +96,12 @@ c = contract(f"{R}.from_int", prop="C04")
 c.types(retries="any", redirect="any", default="any")
 c.requires("retries is None or retries is False or isinstance(retries, (int, Retry))")
 c.requires("default is None or default is False or isinstance(default, (int, Retry))")
-c.requires("isinstance(Retry.DEFAULT, Retry)")
+c.requires("isinstance(Retry.DEFAULT, Retry) and valid_retry(Retry.DEFAULT)")
+c.requires("implies(isinstance(retries, Retry), valid_retry(retries)) and implies(isinstance(default, Retry), valid_retry(default))")
+c.requires("isinstance(redirect, bool)")
 c.modifies()
+c.result_hint = R
+c.ensures("isinstance(result, Retry) and valid_retry(result)", "a-valid-Retry")
 c.ensures("implies(isinstance(retries, Retry), result is retries)", "retry-object-passed-through")
 c.ensures("implies(retries is None and isinstance(default, Retry), result is default)", "default-used")
 c.ensures("implies(retries is None and default is None, result is Retry.DEFAULT)", "class-default")
@@ -113,8 +118,9 @@ c.ensures("isinstance(result, (int, float)) and result >= 0 and result <= num_ma
 
 c = contract(f"{R}._sleep_backoff", prop="C04")
 c.ghost("sleeps").ghost("last_sleep")
-c.requires("valid_retry(self) and isinstance(ghost.sleeps, int)")
+c.requires("valid_retry(self) and is_int(ghost.sleeps)")
 c.modifies("ghost.sleeps", "ghost.last_sleep")
+c.ensures("is_int(ghost.sleeps) and (ghost.sleeps is old(ghost.sleeps) or ghost.sleeps == old(ghost.sleeps) + 1)", "sleeps-typed")
 c.ensures("ghost.sleeps is old(ghost.sleeps) or (ghost.sleeps == old(ghost.sleeps) + 1"
           " and isinstance(ghost.last_sleep, (int, float)) and ghost.last_sleep > 0 and ghost.last_sleep <= num_max(0, self.backoff_max))", "sleep-within-[0,backoff_max]")
 
@@ -139,9 +145,10 @@ c.raises("InvalidHeader")
 c = contract(f"{R}.sleep_for_retry", prop="C04")
 c.types(response="BaseHTTPResponse")
 c.ghost("sleeps").ghost("last_sleep")
-c.requires("isinstance(response.headers, HTTPHeaderDict) and isinstance(ghost.sleeps, int)")
+c.requires("isinstance(response.headers, HTTPHeaderDict) and is_int(ghost.sleeps)")
 c.modifies("ghost.sleeps", "ghost.last_sleep")
-c.ensures("isinstance(result, bool)")
+c.exc_ensures("is_int(ghost.sleeps)", "sleeps-typed")
+c.ensures("isinstance(result, bool) and is_int(ghost.sleeps)")
 c.ensures("implies(not result, ghost.sleeps is old(ghost.sleeps))", "no-sleep")
 c.ensures("implies(result, ghost.sleeps == old(ghost.sleeps) + 1 and isinstance(ghost.last_sleep, (int, float)) and ghost.last_sleep > 0)", "one-positive-sleep")
 c.raises("InvalidHeader")
@@ -149,10 +156,11 @@ c.raises("InvalidHeader")
 c = contract(f"{R}.sleep", prop="C04")
 c.types(response="opt:BaseHTTPResponse")
 c.ghost("sleeps").ghost("last_sleep")
-c.requires("valid_retry(self) and isinstance(ghost.sleeps, int)")
+c.requires("valid_retry(self) and is_int(ghost.sleeps)")
 c.requires("implies(response is not None, isinstance(response.headers, HTTPHeaderDict) and isinstance(response.status, int))")
 c.modifies("ghost.sleeps", "ghost.last_sleep")
-c.ensures("ghost.sleeps == old(ghost.sleeps) or ghost.sleeps == old(ghost.sleeps) + 1", "at-most-one-sleep")
+c.exc_ensures("is_int(ghost.sleeps)", "sleeps-typed")
+c.ensures("is_int(ghost.sleeps) and (ghost.sleeps == old(ghost.sleeps) or ghost.sleeps == old(ghost.sleeps) + 1)", "at-most-one-sleep")
 c.ensures("implies(ghost.sleeps == old(ghost.sleeps) + 1, isinstance(ghost.last_sleep, (int, float)) and (ghost.last_sleep > 0 and ghost.last_sleep <= num_max(0, self.backoff_max))"
           " or (self.respect_retry_after_header and response is not None and retry_after_status(response.status) and isinstance(ghost.last_sleep, (int, float)) and ghost.last_sleep > 0))",
           "sleep-in-[0,backoff_max]-or-Retry-After-for-413/429/503")
